@@ -15,7 +15,7 @@ RULE = ("every directed graph on n<=3 (quick) / n<=4 (thorough) nodes incl. self
 ASSUMPTIONS = ["reference SCC/topological code in checks/c15.py",
                "compile watchdog 10 s stands for non-termination"]
 TIMEOUT = 900
-REALS = ["virt", "loc", "cond", "size", "enum", "import", "mixed", "param"]
+REALS = ["virt", "loc", "cond", "size", "enum", "import", "mixed", "param", "anonbits", "sizeof"]
 ENAMES = ["NA", "NB", "NC", "ND"]
 
 
@@ -75,6 +75,26 @@ def source_for(real, n, adj):
             lines += ["struct Ss%d:" % i, "  0 [+1]  UInt  x"]
             files["m%d.emb" % i] = "\n".join(lines) + "\n"
         return files, "m0.emb"
+    if real == "sizeof":
+        # node i = structure Si; edge i -> j: a field of Si is sized by Sj.$size_in_bytes (cycles run through generated fields only)
+        lines = ['[$default byte_order: "LittleEndian"]']
+        for i in range(n):
+            lines.append("struct Ss%d:" % i)
+            lines.append("  0 [+1]  UInt  x")
+            for k, j in enumerate(adj[i]):
+                lines.append("  %d [+Ss%d.$size_in_bytes]  UInt:8[]  f%d" % (1 + 40 * k, j, j))
+        return {"m.emb": "\n".join(lines) + "\n"}, "m.emb"
+    if real == "anonbits":
+        # node i = an anonymous bits block with one member n_i; edge i -> j: the block exists only if n_j == 0
+        lines = ['[$default byte_order: "LittleEndian"]', "struct Foo:"]
+        for i in range(n):
+            ind = "  "
+            if adj[i]:
+                lines.append("  if %s:" % " && ".join("n%d == 0" % j for j in adj[i]))
+                ind = "    "
+            lines.append("%s%d [+1]  bits:" % (ind, i))
+            lines.append("%s  0 [+8]  UInt  n%d" % (ind, i))
+        return {"m.emb": "\n".join(lines) + "\n"}, "m.emb"
     lines = ['[$default byte_order: "LittleEndian"]', "struct Inner:", "  0 [+1]  UInt  x",
              "  1 [+x]  UInt:8[]  rest", "struct Par(p: UInt:16):", "  0 [+1]  UInt  x", "struct Foo:"]
     for i in range(n):
@@ -175,6 +195,15 @@ def check_graph(real, n, mask):
         label = (lambda i: ENAMES[i]) if real == "enum" else (lambda i: "n%d" % i)
         head = "Dependency cycle"
     want = {frozenset(label(i) for i in c) for c in comps}
+    if real == "sizeof":
+        # the members of such a cycle are generated fields; only the verdict is compared
+        if want and not errors:
+            return [{"key": "cycle-accepted", "msg": "cyclic graph accepted", "detail": case}]
+        if not want and errors:
+            return [{"key": "acyclic-rejected", "msg": common.first_error_text(errors), "detail": case}]
+        if errors and not any(m[3].startswith("Dependency cycle") for g in common.error_groups(errors) for m in g):
+            return [{"key": "cycle-other-error", "msg": common.first_error_text(errors), "detail": case}]
+        return []
     if want:
         if not errors:
             return [{"key": "cycle-accepted", "msg": "cyclic graph accepted",
@@ -187,6 +216,9 @@ def check_graph(real, n, mask):
                              "detail": case})
                 continue
             members = [msgs[0].split("\n", 1)[1]] + msgs[1:]
+            if real == "anonbits":
+                # the cycle runs through the anonymous field that holds the member; its generated name is not the user's
+                members = [m for m in members if not m.startswith("emboss_reserved_anonymous_field")]
             if len(set(members)) != len(members):
                 viol.append({"key": "cycle-group-duplicates", "msg": repr(members), "detail": case})
             got.add(frozenset(members))
